@@ -10,8 +10,12 @@
    ninja's syntax, every .imports file with the real ImportsMapBuilder._read_from_file; TLC
    (TraceC19.tla) runs the executor on the real plan over all schedules and judges the static
    clauses; the planner model's prediction is compared (DIV lines, never an alarm).
-   Directory components of the project root and of the output directory contain space, colon
-   and dollar; every path read back must be one the driver created beforehand.
+   Directory names of the project root, the output directory and the system directory (home of
+   pytype_extensions.* files) rotate through the family BuildPlanOps!AdvTriples (every ordered
+   pair of space/colon/dollar adjacent, each of them first and last in a name); every path read
+   back must be one the driver created beforehand.
+   File kind "SysExt" = System provenance + module name pytype_extensions.* (the one class of
+   system modules that gets a real infer step whose output importers read and must depend on).
 3. sample: real file trees resolved by importlab (as analyze_project.main does), and plans
    executed by the real `ninja -j16` with a stand-in for pytype-single that records what it read
    and when; the recorded schedule is followed by TraceC19.
@@ -34,9 +38,8 @@ PID = "C19"
 BASE = os.path.join(common.VERIF, "build", "c19")
 STUB_SINGLE = os.path.join(os.path.dirname(os.path.abspath(__file__)), "c19_single.py")
 TRACE_CFG = "INIT TInit\nNEXT TNext\nINVARIANT Ok\nPOSTCONDITION Done\nCHECK_DEADLOCK FALSE\n"
-ADV_ROOT = "r t:$j"      # directory component of the project root
-ADV_OUT = "o $u:t"       # directory component of the output directory
-ADV_SYS = "s:y $s"
+PLAIN = {"root": "root", "out": "out", "sys": "sys"}     # BuildPlanOps!PlainTriple
+EXT = "pytype_extensions"
 
 
 def model_cfg(mode, max_files, max_group, kindset, orders, jobs=2, invs=()):
@@ -193,14 +196,16 @@ def parse_ninja(text):
 class Layout:
   """File names for one structure.  All graph files live in one directory so that sorted file
   names are in id order (importlab's NodeSet sorts its files; the spec numbers the files of a
-  node in that order)."""
+  node in that order).  A SysExt file f lives in its own system directory m<f><sys name> below
+  that directory (so the order is kept), in the package pytype_extensions."""
 
-  def __init__(self, S, base, variant, adversarial=True):
+  def __init__(self, S, base, variant, names=None):
     self.S = S
     self.n = len(S["kind"])
     self.variant = variant          # 0: flat modules, 1: package pk, 2: package with __init__ as file 1
-    top = os.path.join(base, ADV_ROOT if adversarial else "root")
-    self.out = os.path.join(base, ADV_OUT if adversarial else "out")
+    self.names = names = dict(names or PLAIN)
+    top = os.path.join(base, names["root"])
+    self.out = os.path.join(base, names["out"])
     if variant == 0:
       self.dir = top
       prefix = ""
@@ -209,10 +214,21 @@ class Layout:
       prefix = "pk"
     self.root = top + os.sep
     self.path, self.modname, self.key, self.short = {}, {}, {}, {}
+    first_ext = min([f for f in range(1, self.n + 1) if S["kind"][f - 1] == "SysExt"], default=0)
     for f in range(1, self.n + 1):
       kind = S["kind"][f - 1]
       ext = ".pyi" if kind == "Stub" else ".py"
-      if variant == 2 and f == 1 and kind != "Stub":
+      if kind == "SysExt":
+        pkg = os.path.join(self.dir, "m%d%s" % (f, names["sys"]), EXT)
+        if variant == 2 and f == first_ext:       # the package itself: pytype appends .__init__
+          self.path[f] = os.path.join(pkg, "__init__.py")
+          self.modname[f] = EXT
+          self.key[f] = EXT + "/__init__"
+        else:
+          self.path[f] = os.path.join(pkg, "m%d.py" % f)
+          self.modname[f] = "%s.m%d" % (EXT, f)
+          self.key[f] = "%s/m%d" % (EXT, f)
+      elif variant == 2 and f == 1 and kind != "Stub":
         self.path[f] = os.path.join(self.dir, "__init__" + ext)
         self.modname[f] = "pk"                       # importlab's name; pytype appends .__init__
         self.key[f] = "pk/__init__"
@@ -264,7 +280,7 @@ def fake_graph(S, lay):
       prov[p] = resolve.Local(p, name, None)
     elif kind == "Direct":
       prov[p] = resolve.Direct(p, name)
-    elif kind == "System":
+    elif kind in ("System", "SysExt"):
       prov[p] = resolve.System(p, name)
     else:
       prov[p] = resolve.Builtin(p, name)
@@ -310,10 +326,12 @@ def read_plan(out):
     rules, builds = parse_ninja(f.read())
   plan = []
   for b in builds:
-    common.require(len(b["outs"]) == 1 and len(b["ins"]) == 1 and not b["order"],
-                   "unexpected shape of a build statement: %r" % (b,))
+    # the planner writes one output and one explicit input per statement; anything else (e.g. a
+    # path that ninja's lexer splits in two) is recorded as `extra` and judged by TraceC19
     imports = b["vars"].get("imports", "")
-    plan.append({"out": b["outs"][0], "action": b["rule"], "input": b["ins"][0],
+    plan.append({"out": b["outs"][0] if b["outs"] else "", "action": b["rule"],
+                 "input": b["ins"][0] if b["ins"] else "",
+                 "extra": b["outs"][1:] + b["ins"][1:] + b["order"],
                  "deps": b["implicit"], "imports": imports, "module": b["vars"].get("module", ""),
                  "imap": read_imports(imports) if os.path.isfile(imports) else [["?", "<unreadable imports file>"]]})
   return plan, rules
@@ -343,14 +361,16 @@ def clean_out(out):
       os.unlink(os.path.join(d, fn))
 
 
-def realize(S, base, variant, adversarial=True, graph=None, lay=None, keep=False, reuse=False):
+def realize(S, base, variant, names=None, graph=None, lay=None, keep=False, reuse=False):
   """Run the real planner on structure S; returns the case record for TraceC19.
+  names: a member of BuildPlanOps!AdvTriples (None: the plain triple).
   reuse: `base` is a working directory shared by consecutive cases (only its files are removed)."""
   from pytype.tools.analyze_project import pytype_runner
-  lay = lay or Layout(S, base, variant, adversarial)
+  lay = lay or Layout(S, base, variant, names)
   dct, keys, mods = lay.expected()
   case = {"S": S, "dict": dct, "keys": keys, "mods": mods, "initial": [], "srcs": [], "plan": [],
-          "rules": [], "events": [], "crash": "", "variant": variant}
+          "rules": [], "events": [], "crash": "", "fault": "", "variant": variant,
+          "names": lay.names}
   os.makedirs(lay.out, exist_ok=True)
   try:
     graph = graph or fake_graph(S, lay)
@@ -368,8 +388,10 @@ def realize(S, base, variant, adversarial=True, graph=None, lay=None, keep=False
     raise
   except NinjaSyntaxError as e:
     case["crash"] = "build.ninja is not valid ninja syntax: %s" % e
+    case["fault"] = "ninja-syntax"
   except Exception as e:  # pylint: disable=broad-except
     case["crash"] = "%s: %s" % (type(e).__name__, e)
+    case["fault"] = "planner-exception"
   finally:
     if reuse:
       clean_out(lay.out)
@@ -393,7 +415,7 @@ def judge(run, cases, label, shards=4):
     part = cases[off:off + step]
     nv, bad, r = tlc.validate_cases("TraceC19", part, cfg=TRACE_CFG, timeout=3000, heap="3g")
     common.require(bad is None, "TraceC19 invariant cannot fail (verdicts are printed)")
-    res = {"BAD": [], "DIV": [], "NINJA": []}
+    res = {"BAD": [], "DIV": [], "NINJA": [], "FAMILY": []}
     for tag in res:
       for rec in tlc.parse_cases(r.out, tag):
         rec["i"] = off + rec["i"] - 1
@@ -408,6 +430,8 @@ def judge(run, cases, label, shards=4):
     if res["NINJA"]:
       raise common.Machinery("the real ninja started a step that the executor model does not "
                              "enable: %r" % res["NINJA"][:3])
+    if res["FAMILY"]:
+      raise common.Machinery("directory names that are not in the spec's family: %r" % res["FAMILY"][:3])
     seen = set()
     for rec in res["BAD"]:
       c = cases[rec["i"]]
@@ -418,15 +442,23 @@ def judge(run, cases, label, shards=4):
       key = "C19:" + "+".join(fails)
       if fails == ["shell-argv"]:
         key = "C19:shell-argv:imports-variable-unquoted"
-      what = "%s fails on %s structure %s" % ("+".join(fails), label, json.dumps(c["S"]))
+      what = "%s fails on %s structure %s, directory names %s" % (
+          "+".join(fails), label, json.dumps(c["S"]), json.dumps(c["names"]))
       if c["crash"]:
         what += " :: " + c["crash"]
+      if rec.get("unknown"):
+        what += " :: the plan names %r, which is not a path of the project" % sorted(rec["unknown"])[0]
+      if rec.get("undeclared"):
+        s, f = rec["undeclared"][0]
+        what += " :: step %d (%s) reads %s without depending on it" % (
+            s, c["plan"][s - 1]["out"], next((p for p, ident in c["dict"] if ident == f), f))
       if rec.get("rbw"):
         s, f = rec["rbw"][0]
         what += " :: after steps %s step %d (%s) may start but reads %s" % (
             sorted(rec.get("done", [])), s, c["plan"][s - 1]["out"], f)
       run.violation(key, what, {"S": c["S"], "variant": c.get("variant", 0), "family": label,
-                                "fails": fails, "plan": c["plan"], "tree": c.get("tree")})
+                                "names": c["names"], "fails": fails, "plan": c["plan"],
+                                "tree": c.get("tree")})
     for rec in res["DIV"]:
       run.diverge({"family": label, "S": cases[rec["i"]]["S"], "divs": rec["divs"]})
   return total
@@ -436,29 +468,79 @@ def nontrivial(c):
   return len(c["plan"]) >= 2 and any(st["deps"] for st in c["plan"])
 
 
+def ext_steps(c):
+  """Outputs of the steps that analyse a pytype_extensions.* module of System provenance."""
+  ext = {lay_mod for lay_mod, f in c["mods"] if c["S"]["kind"][f - 1] == "SysExt"}
+  return {st["out"] for st in c["plan"] if st["module"] in ext}
+
+
+def ext_read(c):
+  """The plan has a step that reads (imports map) the output of a pytype_extensions step."""
+  outs = ext_steps(c)
+  return bool(outs) and any(t in outs for st in c["plan"] for _, t in st["imap"])
+
+
+def suspect(c):
+  """The plan read back is not made of the driver's paths (only used to decide whether the real
+  ninja is worth running on it; the verdict is TraceC19's)."""
+  known = {p for p, _ in c["dict"]}
+  return bool(c["crash"]) or any(
+      st["extra"] or not {st["out"], st["input"], st["imports"], *st["deps"]} <= known
+      for st in c["plan"])
+
+
+class Stats:
+  """Vacuity counters of the two families added after the seeded changes."""
+
+  def __init__(self):
+    self.role = {r: {} for r in ("root", "out", "sys")}
+    self.ext_read = 0
+
+  def add(self, cases):
+    for c in cases:
+      if ext_read(c):
+        self.ext_read += 1
+      if not nontrivial(c):
+        continue
+      for r in ("root", "out"):
+        self.role[r][c["names"][r]] = self.role[r].get(c["names"][r], 0) + 1
+      if ext_steps(c):      # the system directory occurs in the plan only as input of such a step
+        self.role["sys"][c["names"]["sys"]] = self.role["sys"].get(c["names"]["sys"], 0) + 1
+
+
 # ---------------------------------------------------------------------------------------------
 # real trees resolved by importlab
 
-def write_tree(S, base, rng):
+def write_tree(S, base, rng, names):
   """A real file tree whose import statements realise structure S (importlab then derives its own
-  structure, which is what is judged)."""
-  root = os.path.join(base, ADV_ROOT)
-  stubdir = os.path.join(base, ADV_SYS)
+  structure, which is what is judged).  The system directory holds the third-party stubs and the
+  package pytype_extensions (found through sys.path, i.e. of System provenance)."""
+  root = os.path.join(base, names["root"])
+  stubdir = os.path.join(base, names["sys"])
   os.makedirs(root, exist_ok=True)
-  os.makedirs(stubdir, exist_ok=True)
+  os.makedirs(os.path.join(stubdir, EXT), exist_ok=True)
+  with open(os.path.join(stubdir, EXT, "__init__.py"), "w") as fh:
+    fh.write("x = 1\n")
   n = len(S["kind"])
   ng = len(S["gdeps"])
   members = {g: [f for f in range(1, n + 1) if S["grp"][f - 1] == g] for g in range(1, ng + 1)}
   name = {}
+  first_ext = min([f for f in range(1, n + 1) if S["kind"][f - 1] == "SysExt"], default=0)
   for f in range(1, n + 1):
     k = S["kind"][f - 1]
     name[f] = {"System": ["json", "csv", "glob", "shlex", "copy", "bisect"][f % 6],
-               "Builtin": "sys"}.get(k, "m%d" % f)
+               "Builtin": "sys",
+               "SysExt": EXT if f == first_ext else "%s.m%d" % (EXT, f)}.get(k, "m%d" % f)
   inputs = []
   for g in range(1, ng + 1):
     for x, f in enumerate(members[g]):
       k = S["kind"][f - 1]
       if k in ("System", "Builtin"):
+        continue
+      if k == "SysExt":          # importlab does not follow the imports of a system file (trim)
+        if f != first_ext:
+          with open(os.path.join(stubdir, EXT, "m%d.py" % f), "w") as fh:
+            fh.write("x = 1\n")
         continue
       imports = []
       ring = members[g]
@@ -482,26 +564,53 @@ def write_tree(S, base, rng):
   return root, inputs, stubdir
 
 
-def importlab_case(S0, base, rng):
+class system_dir:
+  """`d` is a site-packages directory of the interpreter for the duration: importlab asks the
+  running Python (importlib.util.find_spec) where a module that is not on the project's
+  pythonpath lives, and calls what it finds a System file."""
+
+  def __init__(self, d):
+    self.d = d
+
+  @staticmethod
+  def _drop():
+    return {k: sys.modules.pop(k) for k in list(sys.modules) if k == EXT or k.startswith(EXT + ".")}
+
+  def __enter__(self):
+    import importlib
+    self.saved = self._drop()
+    sys.path.insert(0, self.d)
+    importlib.invalidate_caches()
+
+  def __exit__(self, *exc):
+    import importlib
+    sys.path.remove(self.d)
+    self._drop()
+    sys.modules.update(self.saved)
+    importlib.invalidate_caches()
+
+
+def importlab_case(S0, base, rng, names):
   """Write a tree, resolve it as analyze_project.main does, read the structure off the real
   ImportGraph, run the planner on that graph."""
   import importlab.fs
   import importlab.graph
   from pytype.tools import environment
   from pytype.tools.analyze_project import environment as ap_env
-  t = write_tree(S0, base, rng)
+  t = write_tree(S0, base, rng, names)
   if t is None:
     shutil.rmtree(base, ignore_errors=True)
     return None
   root, inputs, stubdir = t
-  out = os.path.join(base, ADV_OUT)
+  out = os.path.join(base, names["out"])
   conf = _conf(out, inputs)
   conf.pythonpath = [root]
   typeshed = environment.initialize_typeshed_or_die()
   env = ap_env.create_importlab_environment(conf, typeshed)
   # as if typeshed had one more third-party stub directory
   env.path.append(importlab.fs.PYIFileSystem(importlab.fs.OSFileSystem(stubdir)))
-  g = importlab.graph.ImportGraph.create(env, sorted(inputs), trim=True)
+  with system_dir(stubdir):
+    g = importlab.graph.ImportGraph.create(env, sorted(inputs), trim=True)
   # structure as importlab sees it: nodes in the order deps_from_import_graph visits them
   order = [node for node, _ in reversed(g.deps_list())]
   files, grp, kind, req = [], [], [], []
@@ -512,6 +621,10 @@ def importlab_case(S0, base, rng):
       files.append(p)
       grp.append(gi)
       cls = g.provenance[p].__class__.__name__
+      name = g.provenance[p].module_name + (".__init__" if os.path.basename(p) == "__init__.py" else "")
+      if cls == "System" and name.startswith(EXT + "."):
+        common.require(p.startswith(stubdir + os.sep), "pytype_extensions resolved outside the tree: " + p)
+        cls = "SysExt"
       kind.append("Stub" if p.endswith((".pyi", ".pytd")) else cls)
       req.append(p in inputs)
   gdeps = []
@@ -520,7 +633,7 @@ def importlab_case(S0, base, rng):
   S = {"kind": kind, "req": req, "grp": grp, "gdeps": gdeps}
   # expected names, from the real files
   lay = Layout.__new__(Layout)
-  lay.S, lay.n, lay.out, lay.variant = S, len(files), out, 9
+  lay.S, lay.n, lay.out, lay.variant, lay.names = S, len(files), out, 9, dict(names)
   lay.path, lay.modname, lay.key, lay.pymod = {}, {}, {}, {}
   for f, p in enumerate(files, 1):
     prov = g.provenance[p]
@@ -536,7 +649,7 @@ def importlab_case(S0, base, rng):
 # ---------------------------------------------------------------------------------------------
 # plans executed by the real ninja
 
-def ninja_case(S, base, variant, rng, jobs=16, adversarial=False):
+def ninja_case(S, base, variant, rng, jobs=16, names=None):
   from pytype.tools.analyze_project import pytype_runner
   log = os.path.join(base, "log.txt")
   os.makedirs(base, exist_ok=True)
@@ -544,13 +657,16 @@ def ninja_case(S, base, variant, rng, jobs=16, adversarial=False):
   pytype_runner.PYTYPE_SINGLE = [sys.executable, STUB_SINGLE, "--log", log,
                                  "--seed", str(rng.randrange(10**6))]
   try:
-    case = realize(S, base, variant, adversarial=adversarial, keep=True)
+    case = realize(S, base, variant, names=names, keep=True)
   finally:
     pytype_runner.PYTYPE_SINGLE = saved
-  if case["crash"] or not case["plan"]:
+  if suspect(case):       # judged as it is (every schedule), without asking the real ninja
+    shutil.rmtree(base, ignore_errors=True)
+    return case
+  if not case["plan"]:
     shutil.rmtree(base, ignore_errors=True)
     return None
-  lay = Layout(S, base, variant, adversarial=adversarial)
+  lay = Layout(S, base, variant, names)
   for f in range(1, lay.n + 1):        # ninja wants the inputs to exist
     os.makedirs(os.path.dirname(lay.path[f]), exist_ok=True)
     with open(lay.path[f], "w") as fh:
@@ -593,15 +709,28 @@ def ninja_case(S, base, variant, rng, jobs=16, adversarial=False):
 
 # ---------------------------------------------------------------------------------------------
 
+FAMILY = []      # BuildPlanOps!AdvTriples as printed by the spec (NAMES line of any BuildPlan run)
+
+
+def _family(r):
+  got = tlc.parse_cases(r.out, "NAMES")
+  common.require(len(got) == 1 and len(got[0]) == 15, "BuildPlan.tla did not print its family of directory names")
+  if not FAMILY:
+    FAMILY.extend(got[0])
+  common.require(FAMILY == got[0], "the family of directory names changed between TLC runs")
+
+
 def export_structs(run, max_files, max_group, kindset, orders):
   r = tlc.run("BuildPlan", model_cfg("structs", max_files, max_group, kindset, orders,
                                      invs=["ExportInv"]), workers=1, timeout=3000, seed=run.seed)
+  _family(r)
   return r.cases
 
 
 def sim_structs(run, max_files, max_group, kindset, num, seed):
   r = tlc.run("BuildPlan", model_cfg("sim", max_files, max_group, kindset, "any", invs=["ExportInv"]),
               workers=1, timeout=3000, seed=seed, simulate="num=%d" % num, depth=max_files + 3)
+  _family(r)
   return r.cases
 
 
@@ -636,10 +765,11 @@ def body(run, a, base):
   if a.replay:
     with open(a.replay) as f:
       case = json.load(f)["case"]
+    names = case.get("names") or PLAIN
     if case.get("tree"):
-      c = importlab_case(case["S"], scratch(), rng)
+      c = importlab_case(case["S"], scratch(), rng, names)
     else:
-      c = realize(case["S"], scratch(), case.get("variant", 0))
+      c = realize(case["S"], scratch(), case.get("variant", 0), names=names)
     n = judge(run, [c], "replay", shards=1)
     run.put("traces_validated_against_impl", n)
     run.put("states", 1); run.put("transitions", 1); run.sample(case["S"])
@@ -648,46 +778,62 @@ def body(run, a, base):
   thorough = run.tier == "thorough"
   # 1. the design: planner + executor over every structure and every schedule (runs in the
   #    background while the real planner is exercised)
-  bounds = ([(4, 4, "lss", "any"), (5, 2, "l", "mono")] if thorough else [(3, 3, "all", "any")])
+  bounds = ([(4, 4, "lss", "any"), (5, 2, "l", "mono"), (4, 3, "x", "mono")] if thorough
+            else [(3, 3, "all", "any"), (3, 3, "x", "any")])
   import concurrent.futures as cf
   mex = cf.ThreadPoolExecutor(max_workers=2)
   mfuts = [(b, mex.submit(tlc.run, "BuildPlan", model_cfg("check", b[0], b[1], b[2], b[3], jobs=2, invs=MODEL_INVS),
                           workers=6, timeout=6000, seed=run.seed)) for b in bounds]
 
   # 2. every exported structure -> real planner -> TLC executor on the real plan
-  fams = [("exh3-all", 3, 3, "all", "any"), ("exh4-l", 4, 4, "l", "any")]
+  #    ("x": Local / requested Local / System / pytype_extensions.* of System provenance)
+  fams = [("exh3-all", 3, 3, "all", "any"), ("exh3-x", 3, 3, "x", "any"), ("exh4-l", 4, 4, "l", "any")]
   if thorough:
-    fams = [("exh3-all", 3, 3, "all", "any"), ("exh4-lss", 4, 4, "lss", "any"), ("exh5-l", 5, 3, "l", "mono")]
+    fams = [("exh3-all", 3, 3, "all", "any"), ("exh4-lss", 4, 4, "lss", "any"), ("exh4-x", 4, 4, "x", "any"),
+            ("exh5-l", 5, 3, "l", "mono")]
   seen = set()
   total = 0
   allcases = 0
   nontriv = 0
   two_pass = 0
+  stats = Stats()
+  serial = [run.seed]
+
+  def plan_all(structs):
+    """case k: module layout k % 3, directory names AdvTriples[(k div 3) % 15]."""
+    cases = []
+    for S in structs:
+      k = serial[0]
+      serial[0] += 1
+      cases.append(realize(S, wbase, k % 3, names=FAMILY[(k // 3) % len(FAMILY)], reuse=True))
+    stats.add(cases)
+    return cases
+
   for label, mf, mg, ks, od in fams:
     structs = [S for S in export_structs(run, mf, mg, ks, od) if skey(S) not in seen]
     seen.update(skey(S) for S in structs)
     common.require(len(structs) > 300, "family %s exported only %d structures" % (label, len(structs)))
-    cases = [realize(S, wbase, k % 3, reuse=True) for k, S in enumerate(structs)]
+    cases = plan_all(structs)
     nontriv += sum(1 for c in cases if nontrivial(c))
     two_pass += sum(1 for c in cases if any(st["out"].endswith("-1") for st in c["plan"]))
     total += judge(run, cases, label)
     allcases += len(cases)
     run.put("structures_" + label, len(structs))
-    run.sample({"family": label, "S": structs[len(structs) // 2],
+    run.sample({"family": label, "S": structs[len(structs) // 2], "names": cases[len(structs) // 2]["names"],
                 "plan": cases[len(structs) // 2]["plan"][:2]})
     print("  [%s] %d structures, t=%.0fs" % (label, len(structs), time.time() - run.t0), flush=True)
   run.put("exhaustive", True)
 
-  # 3. larger random structures from the spec's generator
+  # 3. larger random structures from the spec's generator (all kinds)
   nsim = 15000 if thorough else 600
   for mf in ((5, 6) if thorough else (5,)):
     structs = []
-    for S in sim_structs(run, mf, 3, "all", nsim, run.seed * 7 + mf):
+    for S in sim_structs(run, mf, 3, "allx", nsim, run.seed * 7 + mf):
       if skey(S) not in seen:
         seen.add(skey(S))
         structs.append(S)
     common.require(len(structs) > nsim // 2, "simulation produced only %d structures" % len(structs))
-    cases = [realize(S, wbase, k % 3, reuse=True) for k, S in enumerate(structs)]
+    cases = plan_all(structs)
     nontriv += sum(1 for c in cases if nontrivial(c))
     two_pass += sum(1 for c in cases if any(st["out"].endswith("-1") for st in c["plan"]))
     total += judge(run, cases, "sim%d" % mf)
@@ -695,23 +841,36 @@ def body(run, a, base):
     run.put("structures_sim%d" % mf, len(structs))
     print("  [sim%d] %d structures, t=%.0fs" % (mf, len(structs), time.time() - run.t0), flush=True)
 
-  # 4. real trees resolved by importlab
+  # 4. real trees resolved by importlab; a quarter of them import pytype_extensions
   pool = [json.loads(s) for s in sorted(seen)]
   rng.shuffle(pool)
   ntrees = 200 if thorough else 40
+
+  def imports_ext(S):
+    """a Local/Direct file's node has an edge to a node with a pytype_extensions file"""
+    return any(S["kind"][f] in ("Local", "Direct") and
+               any(S["kind"][x] == "SysExt" for d in S["gdeps"][S["grp"][f] - 1]
+                   for x in range(len(S["kind"])) if S["grp"][x] == d)
+               for f in range(len(S["kind"])))
+
   tcases = []
-  for S in pool:
-    if len(tcases) >= ntrees:
-      break
-    if len(S["kind"]) < 3:
-      continue
-    c = importlab_case(S, scratch(), rng)
-    if c is not None and len(c["plan"]) >= 2:
-      tcases.append(c)
+  ext_trees = 0
+  for want_ext in (True, False):
+    for S in pool:
+      if (ext_trees >= ntrees // 4) if want_ext else (len(tcases) >= ntrees):
+        break
+      if len(S["kind"]) < 3 or imports_ext(S) != want_ext:
+        continue
+      c = importlab_case(S, scratch(), rng, FAMILY[(len(tcases) + run.seed) % len(FAMILY)])
+      if c is not None and len(c["plan"]) >= 2 and (ext_read(c) or not want_ext):
+        tcases.append(c)
+        ext_trees += 1 if ext_read(c) else 0
   common.require(len(tcases) >= ntrees // 2, "too few importlab trees: %d" % len(tcases))
+  stats.add(tcases)
   total += judge(run, tcases, "importlab", shards=1)
   run.put("importlab_trees", len(tcases))
   run.put("importlab_trees_with_cycle", sum(1 for c in tcases if any(st["out"].endswith("-1") for st in c["plan"])))
+  run.put("importlab_trees_reading_pytype_extensions", ext_trees)
   run.put("importlab_kinds", sorted({k for c in tcases for k in c["S"]["kind"]}))
   run.sample({"family": "importlab", "S": tcases[0]["S"], "files": tcases[0]["tree"]["files"]})
   print("  [importlab] %d trees, t=%.0fs" % (len(tcases), time.time() - run.t0), flush=True)
@@ -734,12 +893,12 @@ def body(run, a, base):
   for S in cands[::-1]:
     if len(acases) >= (10 if thorough else 2):
       break
-    c = ninja_case(S, scratch(), rng.randrange(3), rng, adversarial=True)
+    c = ninja_case(S, scratch(), rng.randrange(3), rng, names=FAMILY[rng.randrange(len(FAMILY))])
     if c is not None:
       acases.append(c)
   total += judge(run, acases, "ninja-adversarial-dirs", shards=1)
-  run.put("real_ninja_runs_adversarial_dirs", len(acases))
-  run.put("real_ninja_runs", len(ncases))
+  run.put("real_ninja_runs_adversarial_dirs", sum(1 for c in acases if c["events"]))
+  run.put("real_ninja_runs", sum(1 for c in ncases if c["events"]))
   run.put("real_ninja_steps", sum(len(c["plan"]) for c in ncases))
   run.sample({"family": "ninja", "S": ncases[0]["S"], "events": ncases[0]["events"][:8]})
 
@@ -748,6 +907,7 @@ def body(run, a, base):
     r = fut.result()
     if r.violated:
       raise common.Machinery("BuildPlan.tla violates %s:\n%s" % (r.violated, r.error_trace[:4000]))
+    _family(r)
     states += r.distinct
     trans += r.generated
     print("  [model %s] %d states, t=%.0fs" % (b, r.distinct, time.time() - run.t0), flush=True)
@@ -758,14 +918,25 @@ def body(run, a, base):
   run.put("evaluations", allcases + len(tcases) + len(ncases))
   run.put("distinct_nontrivial", nontriv)
   run.put("plans_with_two_passes", two_pass)
+  run.put("plans_reading_a_pytype_extensions_stub", stats.ext_read)
+  run.put("directory_name_family", [t["root"] for t in FAMILY])
+  run.put("least_used_directory_name", {r: min([stats.role[r].get(t[r], 0) for t in FAMILY]) for r in stats.role})
   run.put("rule", "one case = one import structure, planned by the real deps_from_import_graph + "
           "setup_build, read back, executed by TLC under every schedule; non-trivial = at least two "
           "build statements and a declared dependency")
   common.require(nontriv > 300 and two_pass > 100, "vacuity: %d non-trivial, %d two-pass plans" % (nontriv, two_pass))
+  common.require(stats.ext_read >= 200 and ext_trees >= ntrees // 8,
+                 "vacuity: %d plans (%d importlab trees) in which a step reads the stub of a "
+                 "pytype_extensions step" % (stats.ext_read, ext_trees))
+  for r, least in (("root", 20), ("out", 20), ("sys", 5)):
+    for t in FAMILY:
+      common.require(stats.role[r].get(t[r], 0) >= least,
+                     "vacuity: directory name %r used as %s in only %d non-trivial plans" % (
+                         t[r], r, stats.role[r].get(t[r], 0)))
   run.assumptions += [
       "a step reads its input, its imports file and every target of its imports map (over-approximation of what pytype-single opens)",
-      "requested files are Local/Direct modules that occur in the import graph; module names are distinct; no name starts with pytype_extensions.",
-      "adversarial characters (space, colon, dollar) in directory components only; newline and '|' are not covered (ninja has no escape for '|')",
+      "requested files are Local/Direct modules that occur in the import graph; module names are distinct; pytype_extensions.* modules are of System provenance and never requested",
+      "special characters (space, colon, dollar; all ordered pairs adjacent, first and last position) in the names of the project root, the output directory and the system directory only (module short paths stay importable names); newline and '|' are not covered (ninja has no escape for '|')",
       "the command line of a step is passed to a shell by ninja; quoting of $imports in that shell command is outside the plan-level property",
   ]
   return run.finish()
